@@ -82,11 +82,11 @@ PROP = {'suites': ['c18'],
          'static jwks_uri client after a rotation/outage between executions that differ in the instance assignment is reported under the one signature '
          'static-jwks_uri-client:keys-cached-for-the-life-of-the-instance (the defect d7a7b62 repaired); every other difference as <operation>:<field>. Error codes answered to forged tokens depend '
          "on the bytes of the forgery and are compared as refusals. Histories containing the embedder's client removal are compared on the Go side only (the model's op type has no such operation; "
-         'step_alias_copy_equiv covers the states they reach). FOUND ON THE CURRENT TREE, listed as known (K8-C18, signature '
-         'registered-client:authorization_data_types:empty-list-is-absent-after-json): a client registered with `authorization_data_types: []` is refused every authorization detail under the '
-         "repository's storage (isAuthDetailTypeAllowed: only a nil list means 'not announced') and allowed every type under a JSON-copying storage (`omitempty` writes no member for the empty list, "
-         'nil comes back): 303 error=invalid_authorization_details against 303 with a code for the same GET /authorize; history corpus:authn:dcr/authorization_data_types (the clients registered '
-         'without the member and with ["payment"] agree); VERIF_C18_NO_AUTHDETAILS=1 leaves the history out. The same shape (nil and empty told apart in code, not in the omitempty JSON form) exists '
+         'step_alias_copy_equiv covers the states they reach). FOUND by this suite and REPAIRED in /repo (D28, fix 284a382; signature registered-client:authorization_data_types:empty-list-is-absent-after-json): a client registered with `authorization_data_types: []` was refused every authorization detail under the '
+         "repository's storage (isAuthDetailTypeAllowed: only a nil list meant 'not announced') and allowed every type under a JSON-copying storage (`omitempty` writes no member for the empty list, "
+         'nil comes back); history corpus:authn:dcr/authorization_data_types stays as the regression (the clients registered '
+         'without the member, with [] and with ["payment"] now agree under both flavours). D27 (fix 6e63330) is the same shape on the pushed session: `authorization_details=[]` at /par was kept by the '
+         'aliasing store and dropped by the copying one, so the outer parameter of the redeeming request was merged in or not; random histories push `[]` again. The same shape (nil and empty told apart in code, not in the omitempty JSON form) exists '
          'for other stored members and is NOT exercised: internal/token/make.go tests `grantInfo.ActiveAuthDetails != nil` and `grantInfo.ActiveResources != nil` on the stored grant, '
          'internal/authorize/validation.go `params.Resources == nil` / `params.AuthDetails == nil` on the parameters of a stored pushed session, goidc.Client.FetchPublicJWKS `c.PublicJWKS != nil`; '
          'the scripted embedder and the form decoder never produce an empty non-nil list there. Seen while configuring the worlds, not a C18 matter: provider.WithSecretJWTSignatureAlgs ranges over '
